@@ -28,6 +28,7 @@ CONSTANTS Chunks,      \* chunk ids clients hold a manifest for (stored by this 
           DevRateKeyHeader,      \* no token configured: the rate bucket is keyed by the TOKEN header when one is sent
           DevRefundOnRefusal,    \* a refused STORE gives a slot of the rate budget back -- whether or not it had taken one
           RateBad,               \* BOOLEAN: the "rate" family also sends STOREs that are refused on their headers (size, TTL) or PoW
+          DevTrimValues,         \* parse_response strips blanks around keys and values ("KEY: value" tolerated)
           DevRawNewlines         \* send_response writes values verbatim (no escaping of newlines / CR / backslash)
 
 VARIABLES now,
@@ -56,7 +57,8 @@ TtlNum(c) == CASE c = "below" -> 1 [] c = "min" -> 2 [] c = "mid" -> 3 [] c = "m
 (* return, backslash.  A response is [ok, fields : key -> value, has, data]; keys are         *)
 (* one-token sequences, values and data token sequences.                                       *)
 ValueTable == << <<>>, <<"x">>, <<"a", "NL", "b">>, <<"a", "NL">>, <<"k", ":", "v">>, <<"NL">>,       \* the six of the plan
-                 <<"a", "BS", "n", "b">>, <<"BS">>, <<"x", "CR", "y">> >>                              \* escape-character corner cases
+                 <<"a", "BS", "n", "b">>, <<"BS">>, <<"x", "CR", "y">>,                                \* escape-character corner cases
+                 <<"SP", "x">>, <<"x", "SP">> >>                                                       \* a blank at either end belongs to the value
 DataTable == << <<>>, <<"p">>, <<"NL", "p">>, <<"p", "NL", "NL">> >>
 Digits == <<"0", "1", "2", "3", "4", "5", "6", "7", "8", "9">>
 DigitSet == {Digits[i] : i \in 1..10}
@@ -88,6 +90,9 @@ NextNL(w, i) == IF \E j \in i..Len(w) : w[j] = "NL"
                   THEN CHOOSE j \in i..Len(w) : w[j] = "NL" /\ \A k \in i..(j - 1) : w[k] # "NL"
                   ELSE 0
 NotCR(t) == t # "CR"
+TrimSP(v) == LET keep == {i \in 1..Len(v) : v[i] # "SP"}
+             IN IF keep = {} THEN <<>>
+                ELSE SubSeq(v, CHOOSE i \in keep : \A j \in keep : i <= j, CHOOSE i \in keep : \A j \in keep : j <= i)
 RECURSIVE ParseFrom(_, _, _)
 ParseFrom(w, i, acc) ==
     LET j == NextNL(w, i) IN
@@ -98,7 +103,8 @@ ParseFrom(w, i, acc) ==
             ELSE IF ~\E p \in 1..Len(line) : line[p] = ":" THEN ParseFrom(w, j + 1, acc)
             ELSE LET p   == CHOOSE p \in 1..Len(line) : line[p] = ":" /\ \A q \in 1..(p - 1) : line[q] # ":"
                      key == SubSeq(line, 1, p - 1)
-                     val == SubSeq(line, p + 1, Len(line))
+                     raw == SubSeq(line, p + 1, Len(line))
+                     val == IF DevTrimValues THEN TrimSP(raw) ELSE raw
                  IN IF key = <<"STATUS">> THEN ParseFrom(w, j + 1, [acc EXCEPT !.seen = TRUE, !.ok = (val = <<"OK">>)])
                     ELSE IF key = <<"PAYLOAD-LENGTH">>
                       THEN IF Len(val) = 1 /\ val[1] \in DigitSet
